@@ -28,7 +28,7 @@ Kinds == {"add", "remove", "replace", "move", "copy", "test"}
 
 Ptrs == {"", "/", "/publicKey", "/publicKey/0", "/publicKey/0/id", "/publicKey/-",
          "/service", "/service/0", "/service/0/serviceEndpoint",
-         "/publicKeyX", "/services", "/public~0Key", "/public~1Key",
+         "/publicKeyX", "/services", "/publicKeys", "/public~0Key", "/public~1Key",
          "/other", "/other/a", "/alsoKnownAs/0",
          \* not JSON pointers at all (RFC 6901: a pointer is empty or starts with "/"); a lenient
          \* implementation may read them as the pointer that follows the first "/"
@@ -36,7 +36,7 @@ Ptrs == {"", "/", "/publicKey", "/publicKey/0", "/publicKey/0/id", "/publicKey/-
          \* the URI-fragment spelling with percent escapes (RFC 6901 section 6), which this patch format does not use
          "#/public%4Bey/0", "#/%73ervice/0",
          \* a member that is not protected but sounds like the keys' name in resolved documents
-         "/verificationMethod",
+         "/verificationMethod", "/capabilityInvocation", "/keyAgreement",
          \* pointers through a member named "" (an empty reference token): not the protected members
          "//publicKey/0", "//service",
          \* a line feed inside a reference token (pattern matching that stops at line ends)
